@@ -176,11 +176,51 @@ fn mesh_obs(m: &fidget_mesh::Mesh) -> Vec<u64> {
     tris.iter().flat_map(|t| t.iter().flat_map(|v| v.iter().map(|b| *b as u64))).collect()
 }
 
+/// Two clipped balls: min(max(max(x-a, y-b), ball), max(max(x-c, z-d), ball')) -
+/// octree cells produce many different traces, some of which do not shorten
+/// the tape (3D analogue of `c10::clipped_disks`)
+fn clipped_balls() -> Prog {
+    use crate::prog::POp;
+    use fidget_core::context::{BinaryOpcode as B, UnaryOpcode as U};
+    let mut p = Prog::default();
+    let x = p.push(POp::Var(0));
+    let y = p.push(POp::Var(1));
+    let z = p.push(POp::Var(2));
+    let mut part = |p: &mut Prog, u: usize, v: usize, a: f32, b: f32, c: [f32; 3], r2: f32| {
+        let ka = p.push(POp::Const(a));
+        let ua = p.push(POp::Bin(B::Sub, u, ka));
+        let kb = p.push(POp::Const(b));
+        let vb = p.push(POp::Bin(B::Sub, v, kb));
+        let half = p.push(POp::Bin(B::Max, ua, vb));
+        let mut s = None;
+        for (axis, cc) in [(x, c[0]), (y, c[1]), (z, c[2])] {
+            let k = p.push(POp::Const(cc));
+            let d = p.push(POp::Bin(B::Sub, axis, k));
+            let q = p.push(POp::Un(U::Square, d));
+            s = Some(match s {
+                None => q,
+                Some(t) => p.push(POp::Bin(B::Add, t, q)),
+            });
+        }
+        let kr = p.push(POp::Const(r2));
+        let ball = p.push(POp::Bin(B::Sub, s.unwrap(), kr));
+        p.push(POp::Bin(B::Max, half, ball))
+    };
+    let a = part(&mut p, x, y, -0.5625, 0.5, [-0.6875, 0.1875, 0.125], 0.3125);
+    let b = part(&mut p, x, z, 0.0, -0.0, [-0.5, -0.4375, -0.25], 0.28125);
+    let r = p.push(POp::Bin(B::Min, a, b));
+    p.roots = vec![r];
+    p
+}
+
 fn mesh<F: Backend + RenderHints>(depth: u8, pool_threads: usize, max_jobs: usize) -> Workload {
-    let scene = &scene::scenes_3d()[5];
-    let shape = build_shape::<F>(&scene.prog);
+    mesh_scene::<F>("", &scene::scenes_3d()[5].prog, depth, pool_threads, max_jobs)
+}
+
+fn mesh_scene<F: Backend + RenderHints>(label: &str, prog: &Prog, depth: u8, pool_threads: usize, max_jobs: usize) -> Workload {
+    let shape = build_shape::<F>(prog);
     Workload {
-        name: format!("{} mesh depth {depth} pool size {pool_threads}", F::NAME),
+        name: format!("{} mesh {label}depth {depth} pool size {pool_threads}", F::NAME),
         run: Box::new(move |pool, cancel| {
             let vars = ShapeVars::<f32>::new();
             let settings = Settings { depth, world_to_model: nalgebra::Matrix4::identity(), threads: pool, cancel: cancel.clone() };
@@ -533,6 +573,8 @@ enum Unit {
     Effects,
     /// 32 root tiles of one level over a scene with many distinct traces
     ManyTiles { jit: bool },
+    /// meshing a scene whose octree cells produce many distinct traces
+    MeshManyTraces { depth: u8, pool: usize },
     /// the same workloads through ThreadPool::Global
     Global { kind: u8, cancel: bool },
 }
@@ -573,6 +615,9 @@ fn units(tier: Tier) -> Vec<Unit> {
     v.push(Unit::Effects);
     v.push(Unit::ManyTiles { jit: false });
     v.push(Unit::ManyTiles { jit: true });
+    for (depth, pool) in [(2u8, 1usize), (2, 6), (3, 2)] {
+        v.push(Unit::MeshManyTraces { depth, pool });
+    }
     for kind in 0..3 {
         for cancel in [false, true] {
             v.push(Unit::Global { kind, cancel });
@@ -593,7 +638,7 @@ impl Check for C09 {
     }
     fn meta(&self, tier: Tier) -> Meta {
         Meta {
-            rule: "case = one complete execution of a real workload under a recorded schedule; the rayon stand-in resolves every decision from the schedule: (1) how the task list is cut into contiguous jobs (every composition up to max_jobs; map_init's init runs once per job), (2) which runnable job holds the baton at each scheduling point - parallel-op start, job end, and the verif-hooks points at the start of each raster root-tile task, each tile-recursion entry and each octree task (raster: also each cancellation poll) - explored by stateless re-execution in order of increasing preemption count up to the bound, (3) the environment's single step CancelToken::cancel(), offered at every scheduling point and at EVERY cancellation poll (per octree cell, per tile) until it has fired; workloads: 2D render with 2, 3, 4 root tiles and with 32 root tiles of one level over a scene with many distinct tile traces (each root tile = one simplify on the job's render handle; <= 3 jobs), 3D render with 2, 3, 4 root tiles, octree meshing for one pool size per pre-split class (the pool size reaches the mesher only through target_count = min(8^depth, 10*threads): depth 0 -> the root cell alone; depth 1 -> 8 tasks for every n; depth 2 -> 15, 22, 36, 43, 50 tasks for n = 1..5 and 64 for n >= 6; quick: depths 0 and 1 n in {1,16}, depth 2 n in {1,2}; thorough: depth 2 n in {1..6,16} and depth 3 n in {1,7}), VM (+ JIT on one workload per kind), plus the no-pool paths (cancel at every poll), ThreadPool::Global (one workload per kind), and the row-parallel post-processing effects denoise_normals + apply_shading (6 rows cut into <= 3 jobs; SSAO excluded: unseeded RNG); oracles: never cancelled => Some(r) with r equal to the sequential no-pool result (images bitwise, meshes as sorted multisets of rotation-normalised triangles over vertex bit patterns); cancelled => None or exactly the full result, and None when the token is set at the first opportunity; one schedule per workload is replayed twice and must reproduce trace and observation; a prefix that diverges is a machinery error; shared tapes: 3 controlled threads x 2 rounds of point / interval / float-slice / grad-slice evaluation through handles onto one set of tapes, with a scheduling point before each round's tracing evaluations and before its bulk evaluations (4 per thread), explored like the other workloads, each thread's results equal to its solo results; labelled sampling supplement: the same bodies on free-running OS threads (200 rounds) - reported under its own counter, not deciding".into(),
+            rule: "case = one complete execution of a real workload under a recorded schedule; the rayon stand-in resolves every decision from the schedule: (1) how the task list is cut into contiguous jobs (every composition up to max_jobs; map_init's init runs once per job), (2) which runnable job holds the baton at each scheduling point - parallel-op start, job end, and the verif-hooks points at the start of each raster root-tile task, each tile-recursion entry and each octree task (raster: also each cancellation poll) - explored by stateless re-execution in order of increasing preemption count up to the bound, (3) the environment's single step CancelToken::cancel(), offered at every scheduling point and at EVERY cancellation poll (per octree cell, per tile) until it has fired; workloads: 2D render with 2, 3, 4 root tiles and with 32 root tiles of one level over a scene with many distinct tile traces (each root tile = one simplify on the job's render handle; <= 3 jobs), 3D render with 2, 3, 4 root tiles, octree meshing of a scene with many distinct cell traces (depth 2 pool sizes 1 and 6, depth 3 pool size 2; task list cut into <= 3 / 2 jobs) and of a simple scene for one pool size per pre-split class (the pool size reaches the mesher only through target_count = min(8^depth, 10*threads): depth 0 -> the root cell alone; depth 1 -> 8 tasks for every n; depth 2 -> 15, 22, 36, 43, 50 tasks for n = 1..5 and 64 for n >= 6; quick: depths 0 and 1 n in {1,16}, depth 2 n in {1,2}; thorough: depth 2 n in {1..6,16} and depth 3 n in {1,7}), VM (+ JIT on one workload per kind), plus the no-pool paths (cancel at every poll), ThreadPool::Global (one workload per kind), and the row-parallel post-processing effects denoise_normals + apply_shading (6 rows cut into <= 3 jobs; SSAO excluded: unseeded RNG); oracles: never cancelled => Some(r) with r equal to the sequential no-pool result (images bitwise, meshes as sorted multisets of rotation-normalised triangles over vertex bit patterns); cancelled => None or exactly the full result, and None when the token is set at the first opportunity; one schedule per workload is replayed twice and must reproduce trace and observation; a prefix that diverges is a machinery error; shared tapes: 3 controlled threads x 2 rounds of point / interval / float-slice / grad-slice evaluation through handles onto one set of tapes, with a scheduling point before each round's tracing evaluations and before its bulk evaluations (4 per thread), explored like the other workloads, each thread's results equal to its solo results; labelled sampling supplement: the same bodies on free-running OS threads (200 rounds) - reported under its own counter, not deciding".into(),
             bounds: match tier {
                 Tier::Quick => "preemption bound 2 (raster, shared tape), 1 (mesh); schedules are explored in order of increasing preemption count and capped at 12000 per workload: a workload that hits the cap is fully explored only up to the bound recorded in the counters workloads_fully_explored_to_preemption_bound_<k>".into(),
                 Tier::Thorough => "preemption bound 2 (raster, mesh), 3 (shared tape); schedules are explored in order of increasing preemption count and capped at 100000 per workload: a workload that hits the cap is fully explored only up to the bound recorded in the counters workloads_fully_explored_to_preemption_bound_<k>".into(),
@@ -648,6 +693,10 @@ impl Check for C09 {
                 wl.global = true;
                 wl.name = format!("{} (ThreadPool::Global)", wl.name);
                 explore(cx, &mut sub, &wl, true, cancel, if kind == 2 && tier == Tier::Quick { 1 } else { 2 }, cap);
+            }
+            Unit::MeshManyTraces { depth, pool } => {
+                let wl = mesh_scene::<VmFunction>("two clipped balls, ", &clipped_balls(), depth, pool, if pool == 1 && depth == 2 { 3 } else { 2 });
+                explore(cx, &mut sub, &wl, true, false, 1, cap.min(6000));
             }
             Unit::ManyTiles { jit } => {
                 let wl = if jit { render2d_many_tiles::<JitFunction>() } else { render2d_many_tiles::<VmFunction>() };
